@@ -2,7 +2,7 @@
 
 Explicit-state BFS over histories of  {toggle a block of an instance, create a
 further instance, randomize a root}  on a fixed class hierarchy
-(Base{c1: a<2, c2: b<2}; Derived overrides c1: a>1; a holder with a random
+(Base{c1: a<2, c1x: b<2 - a block whose name extends another block's name}; Derived overrides c1: a>1; a holder with a random
 Derived sub-object; a holder with a rand_list_t of two Derived).  Every
 randomize step is explored over every environment-answer sequence with at most
 one non-default answer; the reachable value set of every field of every
@@ -28,7 +28,7 @@ def mk_classes():
             self.a < 2
 
         @vsc.constraint
-        def c2(self):
+        def c1x(self):
             self.b < 2
 
     @vsc.randobj
@@ -63,8 +63,8 @@ SLOTS = ["d0", "d1", "b0", "n0", "l0"]
 ALLOWED = {  # (class kind, block, enabled) -> allowed values of the field the block constrains
     ("D", "c1"): ("a", {True: {2, 3}, False: {0, 1, 2, 3}}),
     ("B", "c1"): ("a", {True: {0, 1}, False: {0, 1, 2, 3}}),
-    ("D", "c2"): ("b", {True: {0, 1}, False: {0, 1, 2, 3}}),
-    ("B", "c2"): ("b", {True: {0, 1}, False: {0, 1, 2, 3}}),
+    ("D", "c1x"): ("b", {True: {0, 1}, False: {0, 1, 2, 3}}),
+    ("B", "c1x"): ("b", {True: {0, 1}, False: {0, 1, 2, 3}}),
 }
 
 
@@ -98,7 +98,7 @@ class World(object):
         o = {"d0": Derived, "d1": Derived, "b0": Base, "n0": Nest, "l0": Lst}[slot]()
         self.objs[slot] = o
         for path, inst in self.instances(slot):
-            self.ref[path] = {"c1": True, "c2": True}
+            self.ref[path] = {"c1": True, "c1x": True}
             self.kind[path] = "B" if slot == "b0" else "D"
 
     def inst(self, path):
@@ -135,7 +135,7 @@ class World(object):
         Base, Derived, Nest, Lst = self.cls
         cl = []
         for nm, C in (("Base", Base), ("Derived", Derived)):
-            for blk in ("c1", "c2"):
+            for blk in ("c1", "c1x"):
                 w = None
                 for K in C.__mro__:
                     if blk in K.__dict__:
@@ -170,7 +170,7 @@ def enabled_ops(w):
         if s not in w.objs:
             ops.append(("create", s))
     for p, o in w.all_instances():
-        for blk in ("c1", "c2"):
+        for blk in ("c1", "c1x"):
             ops.append(("mode", p, blk, not w.ref[p][blk]))
             # idempotent toggle (same value again) is a distinct API call
             ops.append(("mode", p, blk, w.ref[p][blk]))
@@ -230,7 +230,7 @@ def check_rand(hist, slot, bound=1):
         if p not in reached:
             continue
         kind = w.kind[p]
-        for blk in ("c1", "c2"):
+        for blk in ("c1", "c1x"):
             fld, table = ALLOWED[(kind, blk)]
             exp = table[w.ref[p][blk]]
             idx = 0 if fld == "a" else 1
@@ -272,6 +272,96 @@ def expand(hist):
     return {"succ": succ, "viol": viol, "cnt": cnt}
 
 
+# ---------------------------------------------------------------------------
+# a block with a foreach over a list that grows while the block is switched off / on
+# ---------------------------------------------------------------------------
+
+def mk_fl():
+    @vsc.randobj
+    class FL(object):
+        def __init__(self):
+            self.data = vsc.rand_list_t(vsc.bit_t(2), 2)
+            self.k = vsc.rand_bit_t(2)
+
+        @vsc.constraint
+        def cf(self):
+            with vsc.foreach(self.data, idx=True) as i:
+                self.data[i] < 2
+
+        @vsc.constraint
+        def ck(self):
+            self.k != 0
+    return FL
+
+
+FL_OPS = ("off", "on", "append", "rand")
+
+
+def fl_case(seq):
+    """seq: operations on one FL object; the last one is 'rand' and is explored with <= 1 deviation,
+    earlier 'rand' operations run under the default answers"""
+    FL = mk_fl()
+    viol = []
+    cnt = {"executions": 0, "env_transitions": 0, "rand_steps": 1}
+
+    def run(s):
+        o = FL()
+        en = True
+        n = 2
+        for k, op in enumerate(seq):
+            if op == "off":
+                o.cf.constraint_mode(False)
+                en = False
+            elif op == "on":
+                o.cf.constraint_mode(True)
+                en = True
+            elif op == "append":
+                o.data.append(3)
+                n += 1
+            else:
+                o.set_randstate(SRandState(s if k == len(seq) - 1 else Script([])))
+                out = common.outcome(o.randomize)
+                if out[0] != "ok":
+                    return out, en, n, None
+        return out, en, n, [int(x) for x in o.data]
+    reached = set()
+    st = {}
+    en = n = None
+    for x in explore(run, bound=1, cap=3000, state=st):
+        out, en, n, data = x.obs
+        cnt["executions"] += 1
+        cnt["env_transitions"] += len(x.trace)
+        if out[0] != "ok":
+            viol.append({"subcheck": "unexpected_failure", "case": {"fl_seq": list(seq), "choices": x.choices}, "observed": list(out),
+                         "expected": "returns", "what": "foreach block, operations %r: a randomize ended with %r" % (list(seq), out)})
+            continue
+        if len(data) != n:
+            viol.append({"subcheck": "list_length", "case": {"fl_seq": list(seq), "choices": x.choices}, "observed": len(data), "expected": n,
+                         "what": "operations %r: list has %d elements, expected %d" % (list(seq), len(data), n)})
+        if en and any(v >= 2 for v in data):
+            viol.append({"subcheck": "enabled_block_not_enforced", "case": {"fl_seq": list(seq), "choices": x.choices}, "observed": data,
+                         "expected": "every element < 2", "what": "operations %r: block cf is on but the list reads %r" % (list(seq), data)})
+        for i, v in enumerate(data):
+            reached.add((i, v))
+    if not st.get("capped") and not viol and en is False and n is not None:
+        for i in range(n):
+            got = set(v for j, v in reached if j == i)
+            if got != {0, 1, 2, 3}:
+                viol.append({"subcheck": "disabled_or_foreign_block_enforced", "case": {"fl_seq": list(seq), "choices": None},
+                             "observed": sorted(got), "expected": [0, 1, 2, 3],
+                             "what": "operations %r: block cf is off but element %d only takes %r" % (list(seq), i, sorted(got))})
+    return {"viol": viol[:4], "cnt": cnt, "states": len(reached)}
+
+
+def fl_sequences(tier):
+    import itertools
+    out = []
+    for n in range(0, 5 if tier == "quick" else 6):
+        for pre in itertools.product(FL_OPS, repeat=n):
+            out.append(tuple(pre) + ("rand",))
+    return out
+
+
 def classify(v):
     return None
 
@@ -293,15 +383,31 @@ def run(res, only=None):
     res.cov["exhaustive"] = not stats["capped"]
     res.cov["bounds"] = {"depth": depth, "deviation_bound_per_randomize": 1, "instances": SLOTS}
     res.sample({"history": [["create", "d1"], ["mode", "d0", "c1", False], ["rand", "d1"]]})
-    res.sample({"history": [["create", "l0"], ["mode", "l0.l[1]", "c2", False], ["rand", "l0"]]})
+    res.sample({"history": [["create", "l0"], ["mode", "l0.l[1]", "c1x", False], ["rand", "l0"]]})
     res.assumptions.append("field values are not part of the state key: no later operation reads them before overwriting them")
     for v in viols:
         v["finding"] = classify(v)
         res.violation(v)
+    seqs = common.rotate(fl_sequences(res.tier), res.seed)
+    fout = common.pmap(fl_case, seqs)
+    for sq, r in common.good(seqs, fout, res):
+        res.add("traces_validated_against_impl", r["cnt"]["executions"])
+        res.add("evaluations", r["cnt"]["executions"])
+        res.add("transitions", r["cnt"]["env_transitions"])
+        res.add("states", r["states"])
+        res.subcount("foreach_block", "operation_sequences")
+        for v in r["viol"]:
+            v["finding"] = classify(v)
+            res.violation(v)
+    res.cov["bounds"]["foreach_block_sequences"] = "all sequences of {off,on,append,rand} up to length %d followed by rand" % (4 if res.tier == "quick" else 5)
 
 
 def replay(rec):
     c = rec["case"]
+    if c.get("fl_seq"):
+        r = fl_case(tuple(c["fl_seq"]))
+        bad = [x for x in r["viol"] if x["subcheck"] == rec["subcheck"]]
+        return (not bad), (bad[0]["what"] if bad else "holds")
     hist = [tuple(op) for op in c["hist"]]
     v, cnt = check_rand([list(o) for o in hist], c["op"][1])
     bad = [x for x in v if x["subcheck"] == rec["subcheck"]]
